@@ -269,4 +269,19 @@ theorem delete_recorded_valid (S : Schema) (hS : S ∈ familySchemas) (doc : Nod
     C01.Valid S doc' :=
   PM.C11.delete_recorded_valid S (family_det _ hS) (family_leafOk _ hS) doc f t hv hattrs st h doc' ha
 
+/-- `PM.C11.fit_no_raise_partial` with its schema guards discharged for the bundled schema family -/
+theorem fit_no_raise_partial (S : Schema) (hS : S ∈ familySchemas) (st : FitState) (hin : st.inStepB = true)
+    (hwf : st.unplaced.wf = true) (e : FitErr) (h : fitStep S st = .error e) :
+    ∃ f, findFittable S st = .ok (some f) ∧ placeNodes S st f = .error e :=
+  PM.C11.fit_no_raise_partial S (family_det _ hS) (family_fillersOK _ hS) st hin hwf e h
+
+/-- `PM.C11.fit_raise_sites` with its schema guards discharged for the bundled schema family -/
+theorem fit_raise_sites (S : Schema) (hS : S ∈ familySchemas) (st : FitState) (hin : st.inStepB = true)
+    (hwf : st.unplaced.wf = true) (e : FitErr) (h : fitStep S st = .error e) :
+    ∃ f, findFittable S st = .ok (some f) ∧
+    ((∃ d fty os oec total q add, takeLoop S d fty os oec total (f.fragment st.unplaced) 0 q add = .error e) ∨
+    (∃ n fr, pushOpenEnd S n (f.fragment st.unplaced) fr = .error e)) :=
+  PM.C11.fit_raise_sites S (family_det _ hS) (family_fillersOK _ hS) (family_wrapOK _ hS) (family_labelsOK _ hS)
+    st hin hwf e h
+
 end PM.Family.C11
